@@ -425,6 +425,7 @@ func runPath(it *Interp, job *JobSpec, item workItem, sched *scheduler, res *Job
 	}
 	it.evalMemo = map[*Term]uint64{}
 	it.notes = map[string]Value{}
+	it.axiomSeen = map[*Term]bool{}
 	it.forkSites = map[string]int{}
 	it.newModels = nil
 	it.prefix, it.pos = item.prefix, 0
